@@ -43,6 +43,7 @@ MIN_REACH = {
     "growers_whose_result_write_failed_part_way": {"quick": 150, "thorough": 3000},
     "growers_running_as_a_non_root_mpi_rank": {"quick": 150, "thorough": 3000},
     "redundant_growers_that_found_the_crop_gone": {"quick": 30, "thorough": 600},
+    "schedules_with_megabyte_results": {"quick": 9, "thorough": 40},
 }
 TIME_BUDGET = {"quick": 400, "thorough": 3400}
 CASE_TIMEOUT = {"quick": 380, "thorough": 3000}
@@ -94,6 +95,9 @@ def cases(ctx):
     yield {"cfg": "g1_poller", "mode": "validate", "cap": 20000, "kind": "int", "polls": 1}
     if not ctx.quick:
         yield {"cfg": "g1_reaper", "mode": "validate", "cap": 20000, "kind": "int"}
+    # results that are LARGE arrays (megabytes per result file): the same promise, whatever way the bytes reach the file
+    for cfg in ("g1_reaper", "g1_poller", "g2_reaper"):
+        yield {"cfg": cfg, "mode": "random", "n": ctx.pick(6, 25), "seed": 77, "kind": "array:140000", "stick": 0.5, "large": True}
     # seeded random schedules
     rng = ctx.rng("random")
     for i in range(ctx.pick(40, 700)):
@@ -340,6 +344,8 @@ def run_case(ctx, case):
     if case["mode"] == "random":
         rng = ctx.rng("sch", case["seed"])
         for i in range(case["n"]):
+            if case.get("large"):
+                ctx.count("schedules_with_megabyte_results")
             ch = sched.RandomChooser(rng, case["stick"])
             obs = run_schedule(world, ch)
             ctx.count("schedules_run")
